@@ -87,7 +87,7 @@ def execute(scn, devs, bindir, scratch, expect=None):
             if db.exists():
                 con = sqlite3.connect(str(db), timeout=5)
                 res["integrity"] = con.execute("pragma integrity_check").fetchall()
-                res["dbrows"] = con.execute("select name, is_generated, failed_runid is not null and failed_runid != 0 from Files").fetchall()
+                res["dbrows"] = con.execute("select name, is_generated, failed_runid is not null and failed_runid != 0, rowid from Files").fetchall()
                 res["runids"] = con.execute("select id from Runid").fetchall()
                 con.close()
         except Exception as ex:   # noqa
